@@ -229,7 +229,10 @@ def deliver (k : Kind) (d : DSt) (op : Op) (r : Resp) : Res :=
             | _ => resumeAg d1 a1 true false true true r
         else
           match d.st.phase with
-          | .suspAwait | .suspYield => resumeAg d a true false true true r
+          -- awaitable already iterating: plain gen_send; `ag_running_async` is not set again, and an
+          -- athrow() awaitable is not finished by a yielded value or by the generator's exit
+          | .suspAwait | .suspYield =>
+            resumeAg d a d.st.agFlag false (a.mode == .aclose) (a.mode == .aclose) r
           | _ => noRun d
   | .asyncGen, .awThrow =>
     match d.aw with
